@@ -412,10 +412,12 @@ func (propC02) Run(scI interface{}) *Outcome {
 					if out != 0 {
 						return false, st
 					}
-					if sc.Cache == "off" {
-						return true, st // with caching disabled a registration is not kept; the loaders stay authoritative
-					}
 					return true, in.Ver
+				}
+				if sc.Cache == "off" {
+					// caching disabled: the text says both "use the source most recently registered" and "every call
+					// re-reads the loaders"; either the loaders' version (0) or the registered one is admissible
+					return out == 0 || out == st, st
 				}
 				return out == st, st
 			},
